@@ -63,3 +63,319 @@ fn c05_display_displayable_kinds() {
     assert!(r.is_ok());
     kani::cover!(matches!(k, TokenKind::Dir(_)));
 }
+
+/// real Display impl for every kind that can be in a preprocessed token stream (incl. Byte, Breakpoint:
+/// a data directive or .break can stand where an operand is expected): never panics
+#[kani::proof]
+#[kani::unwind(4)]
+fn c05_display_all_kinds() {
+    let k = any_kind();
+    let mut w = NullWriter;
+    let r = core::fmt::write(&mut w, format_args!("{}", k));
+    assert!(r.is_ok());
+    kani::cover!(matches!(k, TokenKind::Byte(_)));
+    kani::cover!(matches!(k, TokenKind::Breakpoint));
+}
+
+// -------------------------------------------------------------- C05 H-lex: one harness per lexer arm
+// The keyword classifiers are over-approximated (any result they can produce), because the 45-way string
+// match is where symbolic execution of the lexer explodes; the tables themselves are checked on concrete
+// keywords (c01_keywords_*).  Sound for "no panic / spans inside the source".
+impl<'s> Cursor<'s> {
+    fn check_instruction_any(&self, _ident: &str, _start_pos: usize) -> Result<TokenKind> {
+        let r: u8 = kani::any();
+        match r % 3 {
+            0 => Ok(TokenKind::Label),
+            1 => Ok(TokenKind::Instr(any_instr_kind())),
+            _ => Err(miette::Report::msg("")),
+        }
+    }
+    fn check_trap_any(&self, _ident: &str) -> TokenKind {
+        if kani::any() {
+            TokenKind::Label
+        } else {
+            TokenKind::Trap(any_trap_kind())
+        }
+    }
+    fn check_directive_any(&self, _dir_str: &str) -> Option<TokenKind> {
+        if kani::any() {
+            None
+        } else {
+            Some(TokenKind::Dir(any_dir_kind()))
+        }
+    }
+}
+
+static mut TEXT: [u8; 4] = [0; 4];
+
+/// a source text: `first` followed by up to 2 more bytes forming valid UTF-8 (ASCII bytes or one 2-byte
+/// character), total length n <= 3
+fn text_after(first: u8) -> &'static str {
+    let b1: u8 = kani::any();
+    let b2: u8 = kani::any();
+    let n: usize = kani::any();
+    kani::assume(n >= 1 && n <= 3);
+    let two_byte = b1 >= 0xC2 && b1 <= 0xDF && b2 >= 0x80 && b2 <= 0xBF;
+    kani::assume((b1 < 0x80 && b2 < 0x80) || (two_byte && n == 3));
+    unsafe {
+        TEXT = [first, b1, b2, 0];
+        core::str::from_utf8_unchecked(&*core::ptr::addr_of!(TEXT).cast::<[u8; 4]>())
+            .get_unchecked(..n)
+    }
+}
+
+fn check_lexed(src: &'static str, r: Result<Token>) {
+    match r {
+        Ok(t) => {
+            assert!(t.span.offs() + t.span.len() <= src.len(), "token span outside the source");
+        }
+        Err(rep) => {
+            let mut i = 0;
+            while i < rep.labels.len() {
+                let l = &rep.labels[i];
+                assert!(l.span.offset + l.span.length <= src.len(), "diagnostic label outside the source");
+                i += 1;
+            }
+            core::mem::forget(rep);
+        }
+    }
+}
+
+macro_rules! lex_arm {
+    ($name:ident, $first:expr) => {
+        #[kani::proof]
+        #[kani::unwind(7)]
+        #[kani::stub(alloc::fmt::format, stubs::fmt_format)]
+        #[kani::stub(Cursor::check_instruction, Cursor::check_instruction_any)]
+        #[kani::stub(Cursor::check_trap, Cursor::check_trap_any)]
+        #[kani::stub(Cursor::check_directive, Cursor::check_directive_any)]
+        fn $name() {
+            let firsts: &[u8] = $first;
+            let k: usize = kani::any();
+            kani::assume(k < firsts.len());
+            let src = text_after(firsts[k]);
+            let mut c = Cursor::new(src);
+            let r1 = c.advance_token();
+            let ok = r1.is_ok();
+            check_lexed(src, r1);
+            if ok {
+                // the token after it (or Eof)
+                let r2 = c.advance_token();
+                check_lexed(src, r2);
+            }
+            kani::cover!(ok && src.len() == 3);
+            kani::cover!(!ok || src.len() == 1);
+        }
+    };
+}
+lex_arm!(c05_lex_hex_arm, &[b'x', b'X']);
+lex_arm!(c05_lex_zero_arm, &[b'0']);
+lex_arm!(c05_lex_dec_arm, &[b'#']);
+lex_arm!(c05_lex_dir_arm, &[b'.']);
+lex_arm!(c05_lex_str_arm, &[b'"']);
+lex_arm!(c05_lex_reg_arm, &[b'r', b'R']);
+lex_arm!(c05_lex_ident_arm, &[b'a', b'Z', b'_', b'7']);
+lex_arm!(c05_lex_comment_ws_arm, &[b';', b' ', b',', b':', b'\n', b'\t']);
+lex_arm!(c05_lex_unknown_arm, &[b'!', b'-', b'\\', b'^', 0x7f, 0x00]);
+
+/// the "anything else" arm with a multi-byte first character (2-byte and 4-byte), followed by one ASCII byte
+#[kani::proof]
+#[kani::unwind(7)]
+#[kani::stub(alloc::fmt::format, stubs::fmt_format)]
+#[kani::stub(Cursor::check_instruction, Cursor::check_instruction_any)]
+#[kani::stub(Cursor::check_trap, Cursor::check_trap_any)]
+#[kani::stub(Cursor::check_directive, Cursor::check_directive_any)]
+fn c05_lex_multibyte_first() {
+    let four: bool = kani::any();
+    let tail: u8 = kani::any();
+    kani::assume(tail < 0x80);
+    let with_tail: bool = kani::any();
+    static mut BUF: [u8; 5] = [0; 5];
+    let src: &'static str = unsafe {
+        let n = if four {
+            BUF = [0xF0, 0x9F, 0x98, 0x80, tail];
+            4
+        } else {
+            BUF = [0xC3, 0xA9, tail, 0, 0];
+            2
+        };
+        let n = if with_tail { n + 1 } else { n };
+        core::str::from_utf8_unchecked(&*core::ptr::addr_of!(BUF).cast::<[u8; 5]>()).get_unchecked(..n)
+    };
+    let mut c = Cursor::new(src);
+    let r1 = c.advance_token();
+    assert!(r1.is_err(), "a token starting with a non-ASCII character is not LC-3 source");
+    check_lexed(src, r1);
+    kani::cover!(four && with_tail);
+}
+
+// -------------------------------------------------------------- C01 H-kw / C18 H-gate-lex: keyword tables on concrete keywords
+fn classify(c: &Cursor, ident: &str) -> Option<TokenKind> {
+    match c.check_instruction(ident, 0) {
+        Ok(TokenKind::Label) => Some(c.check_trap(ident)),
+        Ok(k) => Some(k),
+        Err(e) => {
+            core::mem::forget(e);
+            None
+        }
+    }
+}
+
+/// every instruction/trap mnemonic (lowercase, as the classifier expects) maps to its documented kind
+#[kani::proof]
+#[kani::unwind(8)]
+#[kani::stub(alloc::fmt::format, stubs::fmt_format)]
+fn c01_keywords_instructions() {
+    crate::features::verif_h::set_stack(true);
+    let c = Cursor::new("");
+    use crate::symbol::Flag;
+    use crate::symbol::InstrKind::*;
+    use TokenKind::{Instr, Trap};
+    assert!(classify(&c, "add") == Some(Instr(Add)));
+    assert!(classify(&c, "and") == Some(Instr(And)));
+    assert!(classify(&c, "br") == Some(Instr(Br(Flag::Nzp))));
+    assert!(classify(&c, "brnzp") == Some(Instr(Br(Flag::Nzp))));
+    assert!(classify(&c, "brnz") == Some(Instr(Br(Flag::Nz))));
+    assert!(classify(&c, "brzp") == Some(Instr(Br(Flag::Zp))));
+    assert!(classify(&c, "brnp") == Some(Instr(Br(Flag::Np))));
+    assert!(classify(&c, "brn") == Some(Instr(Br(Flag::N))));
+    assert!(classify(&c, "brz") == Some(Instr(Br(Flag::Z))));
+    assert!(classify(&c, "brp") == Some(Instr(Br(Flag::P))));
+    assert!(classify(&c, "jmp") == Some(Instr(Jmp)));
+    assert!(classify(&c, "jsr") == Some(Instr(Jsr)));
+    assert!(classify(&c, "jsrr") == Some(Instr(Jsrr)));
+    assert!(classify(&c, "ld") == Some(Instr(Ld)));
+    assert!(classify(&c, "ldi") == Some(Instr(Ldi)));
+    assert!(classify(&c, "ldr") == Some(Instr(Ldr)));
+    assert!(classify(&c, "lea") == Some(Instr(Lea)));
+    assert!(classify(&c, "not") == Some(Instr(Not)));
+    assert!(classify(&c, "ret") == Some(Instr(Ret)));
+    assert!(classify(&c, "rti") == Some(Instr(Rti)));
+    assert!(classify(&c, "st") == Some(Instr(St)));
+    assert!(classify(&c, "sti") == Some(Instr(Sti)));
+    assert!(classify(&c, "str") == Some(Instr(Str)));
+    assert!(classify(&c, "pop") == Some(Instr(Pop)));
+    assert!(classify(&c, "push") == Some(Instr(Push)));
+    assert!(classify(&c, "call") == Some(Instr(Call)));
+    assert!(classify(&c, "rets") == Some(Instr(Rets)));
+    use crate::symbol::TrapKind::*;
+    assert!(classify(&c, "trap") == Some(Trap(Generic)));
+    assert!(classify(&c, "getc") == Some(Trap(Getc)));
+    assert!(classify(&c, "out") == Some(Trap(Out)));
+    assert!(classify(&c, "puts") == Some(Trap(Puts)));
+    assert!(classify(&c, "in") == Some(Trap(In)));
+    assert!(classify(&c, "putsp") == Some(Trap(Putsp)));
+    assert!(classify(&c, "halt") == Some(Trap(Halt)));
+    assert!(classify(&c, "putn") == Some(Trap(Putn)));
+    assert!(classify(&c, "reg") == Some(Trap(Reg)));
+    assert!(classify(&c, "loop") == Some(TokenKind::Label));
+    assert!(classify(&c, "addd") == Some(TokenKind::Label));
+    use crate::symbol::DirKind::*;
+    assert!(c.check_directive(".orig") == Some(TokenKind::Dir(Orig)));
+    assert!(c.check_directive(".end") == Some(TokenKind::Dir(End)));
+    assert!(c.check_directive(".stringz") == Some(TokenKind::Dir(Stringz)));
+    assert!(c.check_directive(".blkw") == Some(TokenKind::Dir(Blkw)));
+    assert!(c.check_directive(".fill") == Some(TokenKind::Dir(Fill)));
+    assert!(c.check_directive(".break") == Some(TokenKind::Dir(Break)));
+    assert!(c.check_directive(".word").is_none());
+    kani::cover!(true);
+}
+
+/// C18: the four stack mnemonics are refused by the lexer when the flag is off (and only they);
+/// every other keyword classifies identically whatever the flag
+#[kani::proof]
+#[kani::unwind(8)]
+#[kani::stub(alloc::fmt::format, stubs::fmt_format)]
+fn c18_gate_lexer() {
+    let on: bool = kani::any();
+    crate::features::verif_h::set_stack(on);
+    let c = Cursor::new("");
+    use crate::symbol::InstrKind::*;
+    use TokenKind::Instr;
+    let expect = |k| if on { Some(Instr(k)) } else { None };
+    assert!(classify(&c, "push") == expect(Push), "push not gated by the stack flag");
+    assert!(classify(&c, "pop") == expect(Pop), "pop not gated by the stack flag");
+    assert!(classify(&c, "call") == expect(Call), "call not gated by the stack flag");
+    assert!(classify(&c, "rets") == expect(Rets), "rets not gated by the stack flag");
+    assert!(classify(&c, "add") == Some(Instr(Add)));
+    assert!(classify(&c, "ret") == Some(Instr(Ret)));
+    assert!(classify(&c, "jsr") == Some(Instr(Jsr)));
+    assert!(classify(&c, "pusha") == Some(TokenKind::Label));
+    kani::cover!(on);
+    kani::cover!(!on);
+}
+
+/// C18 H-indep: with the feature cell *uninitialised* (any read of the flag panics) every keyword other than
+/// the four stack mnemonics classifies fine: those paths never consult the flag
+#[kani::proof]
+#[kani::unwind(8)]
+#[kani::stub(alloc::fmt::format, stubs::fmt_format)]
+fn c18_flag_not_consulted_elsewhere() {
+    let c = Cursor::new("");
+    use crate::symbol::InstrKind::*;
+    use TokenKind::Instr;
+    assert!(classify(&c, "add") == Some(Instr(Add)));
+    assert!(classify(&c, "ldr") == Some(Instr(Ldr)));
+    assert!(classify(&c, "ret") == Some(Instr(Ret)));
+    assert!(classify(&c, "halt") == Some(TokenKind::Trap(crate::symbol::TrapKind::Halt)));
+    assert!(classify(&c, "popx") == Some(TokenKind::Label));
+    kani::cover!(true);
+}
+
+// -------------------------------------------------------------- C01/C04 H-lit: literal values
+/// hex / decimal literals of up to 3 symbolic digit characters (after the prefix): value == numeric value
+/// (two's complement for negatives), accepted iff within 16 bits
+#[kani::proof]
+#[kani::unwind(8)]
+#[kani::stub(alloc::fmt::format, stubs::fmt_format)]
+#[kani::stub(Cursor::check_instruction, Cursor::check_instruction_any)]
+#[kani::stub(Cursor::check_trap, Cursor::check_trap_any)]
+fn c01_literal_values() {
+    let hex: bool = kani::any();
+    let neg: bool = kani::any();
+    let nd: usize = kani::any();
+    kani::assume(nd >= 1 && nd <= 3);
+    let d: [u8; 3] = kani::any();
+    let radix: u32 = if hex { 16 } else { 10 };
+    let mut val: i64 = 0;
+    static mut LBUF: [u8; 6] = [0; 6];
+    let mut n = 0;
+    unsafe {
+        LBUF[n] = if hex { b'x' } else { b'#' };
+        n += 1;
+        if neg {
+            LBUF[n] = b'-';
+            n += 1;
+        }
+        let mut i = 0;
+        while i < 3 {
+            if i < nd {
+                kani::assume((d[i] as u32) < radix);
+                LBUF[n] = if d[i] < 10 { b'0' + d[i] } else { b'a' + d[i] - 10 };
+                n += 1;
+                val = val * radix as i64 + d[i] as i64;
+            }
+            i += 1;
+        }
+    }
+    if neg {
+        val = -val;
+    }
+    let src: &'static str = unsafe { core::str::from_utf8_unchecked(&*core::ptr::addr_of!(LBUF).cast::<[u8; 6]>()).get_unchecked(..n) };
+    let mut c = Cursor::new(src);
+    let r = c.advance_token();
+    let want = (val & 0xFFFF) as u16;
+    match r {
+        Ok(t) => {
+            assert!(t.span.offs() == 0 && t.span.len() == n, "literal token does not span the literal");
+            let got = lit_value(&t.kind);
+            assert!(got == Some(want), "literal token value differs from the numeric value of its spelling");
+        }
+        Err(e) => {
+            core::mem::forget(e);
+            assert!(false, "in-range literal rejected");
+        }
+    }
+    kani::cover!(hex && neg && nd == 3);
+    kani::cover!(!hex && !neg && val == 999);
+}
